@@ -3,8 +3,9 @@ From RsdnsModel.Properties Require Import C19.
 Check (C19_config_send_sync : is_send_sync ClientConfig_fields = true).
 Check (C19_std_client_send_sync : is_send_sync std_ClientImpl = true /\ is_send_sync Client_wrapper = true).
 Check (C19_async_client_send_sync : is_send_sync async_ClientImpl = true).
-Check (C19_declared_captures_send :
-  is_send async_ClientCtx = true /\ is_send std_ClientCtx = true /\
+Check (C19_declared_captures_send : is_send async_ClientCtx = true /\ is_send std_ClientCtx = true /\
   is_send async_query_raw_params = true /\ is_send async_query_rrset_params = true /\ is_send async_new_params = true).
-Print Assumptions C19_config_send_sync. Print Assumptions C19_std_client_send_sync. Print Assumptions C19_async_client_send_sync.
-Print Assumptions C19_declared_captures_send. Print Assumptions C19_rules_reject_refcell.
+Check (C19_rules_reject_refcell : is_send_sync [("buf", App "RefCell" [App "Vec" [Leaf "u8"]])] = false /\
+  is_send [("buf", App "RefCell" [App "Vec" [Leaf "u8"]])] = true /\
+  is_send [("rng", Leaf "ThreadRng")] = false).
+Print Assumptions C19_config_send_sync. Print Assumptions C19_std_client_send_sync. Print Assumptions C19_async_client_send_sync. Print Assumptions C19_declared_captures_send. Print Assumptions C19_rules_reject_refcell.
